@@ -215,6 +215,7 @@ reg("C07",
     *[H("c07", "c07_heartbeat_e2e_%s" % k, tier=t, bounds="7-byte heartbeat payload split in 2 (%s, concrete); real payload parser; type, payload, padding symbolic" % k,
         funcs=_RP + ["parse_tls_record_with_header", "parse_tls_message_heartbeat"], timeout=900, mem=12)
       for k, t in (("cut0_pl1", "quick"), ("cut0_pl4", "quick"))],
+    H("c07", "c07_step_at_64k_boundary", bounds="in-progress buffer of 65535 unconstrained bytes + 1 symbolic byte: the u16 boundary of the pseudo-header length", stubs=["parse_tls_record_with_header (model callee)"], funcs=_RP, timeout=600),
     *[H("c07", "c07_any_state_step_d%d" % d, bounds="one call (operation kind, content type, %d data bytes symbolic) from an arbitrary valid state: idle with <= 3 left-over bytes or in progress with <= 3 buffered bytes; model message length 1..4 symbolic" % d,
         stubs=["parse_tls_record_with_header (model callee)"], funcs=_RP + ["verif_from_parts (hook)"], timeout=900, mem=12) for d in (0, 1, 2)],
     )
@@ -476,7 +477,7 @@ reg("C01",
                    "c05_content_status_request_4", "c05_content_early_data_2"], c01=True),
     *_pick("C05", ["c05_dispatch_client", "c05_dispatch_server", "c05_content_alpn_7", "c05_content_oid_filters_7", "c05_content_groups_6",
                    "c05_content_signature_algorithms_6", "c05_tag_sni", "c05_tag_supported_versions"], c01=True, tier="thorough"),
-    *_pick("C07", ["c07_lockstep_2_n1_0_1", "c07_heartbeat_e2e_cut0_pl1", "c07_any_state_step_d0"], c01=True),
+    *_pick("C07", ["c07_lockstep_2_n1_0_1", "c07_heartbeat_e2e_cut0_pl1", "c07_any_state_step_d0", "c07_step_at_64k_boundary"], c01=True),
     *_pick("C07", ["c07_lockstep_2_n3_1_2", "c07_any_state_step_d1", "c07_any_state_step_d2"], c01=True, tier="thorough"),
     *_pick("C10", ["c10_record_header", "c10_hs_serverdone", "c10_hs_hello_verify_request", "c10_body_certificate_10"], c01=True),
     *_pick("C10", ["c10_record_wiring_small", "c10_hs_clientkeyexchange", "c10_body_server_hello_42", "c10_record_ccs", "c10_record_alert"], c01=True, tier="thorough"),
